@@ -61,7 +61,7 @@ Proof. intros Hv. unfold KV, lit. cbn [app after_char]. change (Ascii.eqb " " "=
 Lemma parse_rename_go_S f tokens : parse_rename_go (S f) tokens =
   match after_first (L "rename") tokens with
   | None => None
-  | Some ar => if starts (L "_all") (trim_start ar) then parse_rename_go f (skipn 4 ar)
+  | Some ar => if starts (L "_all") (trim_start ar) then parse_rename_go f (skipn 4 (trim_start ar))
                else match after_char "=" ar with Some (_, r) => quoted_value (trim_start r) | None => None end
   end.
 Proof. unfold after_first. cbn [parse_rename_go]. destruct (find_sub (L "rename") tokens) as [[a b]|]; reflexivity. Qed.
@@ -329,11 +329,18 @@ Lemma ident_ok_parts s : ident_ok s = true ->
 Proof. unfold ident_ok. intros H. apply andb_true_iff in H as [H H3]. apply andb_true_iff in H as [H1 H2].
   split; [exact H2|]. split; [exact H3|]. destruct s; [discriminate|exact H1]. Qed.
 
-Lemma apply_field_ok r s : ident_ok s = true -> apply_to_field_b r s = Ok (field_rule r s).
+Lemma apply_field_ok r s : ident_ok s = true -> apply_naming_convention r s = field_rule r s.
 Proof. intros H. destruct (ident_ok_parts s H) as (Hc & Hn & _). destruct r; try reflexivity.
-  cbn [apply_to_field_b field_rule]. pose proof (pascal_head true s Hc) as Hh. pose proof (pascal_nonempty true s Hn) as Hne.
-  unfold lower_first_b, lower_first. destruct (pascal true s) as [|c rest]; [congruence|].
-  destruct rest as [|r rest]; [reflexivity|]. rewrite Hh. reflexivity. Qed.
+  cbn [apply_naming_convention field_rule]. pose proof (pascal_nonempty true s Hn) as Hne.
+  unfold camel_guard, lower_first. destruct (pascal true s) as [|c rest]; [congruence|reflexivity]. Qed.
+
+(* apply_to_variant as called (with its byte slices for camelCase) never panics on an identifier *)
+Lemma apply_variant_ok r s : ident_ok s = true -> apply_to_variant_b r s = Ok (variant_rule r s).
+Proof. intros H. destruct (ident_ok_parts s H) as (Hc & _ & _). destruct r; try reflexivity.
+  cbn [apply_to_variant_b variant_rule]. unfold lower_first_b, lower_first.
+  destruct s as [|c [|d rest]]; [discriminate|reflexivity|].
+  cbn [forallb] in Hc. apply andb_true_iff in Hc as [_ Hc]. apply andb_true_iff in Hc as [Hd _].
+  destruct (cf_cont d Hd) as [Hcont _]. rewrite Hcont. reflexivity. Qed.
 
 (* where the field rule and the variant rule agree *)
 Lemma map_lower_id s : has_upper s = false -> map lower s = s.
